@@ -69,7 +69,7 @@ def run(ctx):
         meta.append((e, ev, cs))
     # with --split-by: an expression that looks at the enclosing record has the same value in a first and in a later
     # --select, in --filter, --sort-by and --group-by
-    scases = []; smeta = []; mmeta = []
+    scases = []; smeta = []; mmeta = []; s2meta = []
     SPL = ['^.k', '(size ^.arr)', '^.a', '(concat (default ^.k "n") "-")', '.']
     for i in range(n // 4):
         e = rnd.choice(SPL)
@@ -81,7 +81,11 @@ def run(ctx):
         mac = mkcase('U%d' % i, lib.new_cfg(split='.arr', set=['@mm=' + e], select=[rnd.choice(['@mm=v', '(@ "mm")=v', '(? true @mm 0)=v'])]), data)
         mac2 = mkcase('UU%d' % i, lib.new_cfg(split='.arr', set=['@mm=(push [] %s /o/)' % e], select=['.=o', '@mm=v']), data)
         ref2 = mkcase('UR%d' % i, lib.new_cfg(split='.arr', select=['.=o', '(push [] %s /o/)=v' % e]), data)
-        scases += [one, two, srt, grp, mac, mac2, ref2]; smeta.append((e, one, two, srt, grp)); mmeta.append((e, one, mac, mac2, ref2))
+        # behind one or two sorters the rows still carry their parents: ^ in a later sort key, in --group-by, in a later --select
+        srt2 = mkcase('W2_%d' % i, lib.new_cfg(split='.arr', select=['.=o', e + '=v'], sort=['(? true 1 .)', '(? true 1 %s)' % e]), data)
+        srt3 = mkcase('W3_%d' % i, lib.new_cfg(split='.arr', sort=['(? true 1 .)'], select=['.=o', e + '=v']), data)
+        grp2 = mkcase('X2_%d' % i, lib.new_cfg(split='.arr', sort=['(? true 1 .)'], select=[e + '=v'], group='(stringify %s)' % e), data)
+        scases += [one, two, srt, grp, mac, mac2, ref2, srt2, srt3, grp2]; smeta.append((e, one, two, srt, grp)); mmeta.append((e, one, mac, mac2, ref2)); s2meta.append((e, one, grp, srt2, srt3, grp2))
     cases += scases
     # regex functions under different cache sizes
     rcases = []; rmeta = []
@@ -144,6 +148,22 @@ def run(ctx):
             x, y = impl[cs[plain]['id']], impl[cs[var]['id']]
             if (x['result'], x['stdout']) != (y['result'], y['stdout']):
                 V(var, 'the spelling with aliases and comma/space separators (%s) means the same in %s as in --select' % (ev, where), (y['result'] + ' ' + y['stdout'].decode('utf8', 'replace'))[:300], (x['result'] + ' ' + x['stdout'].decode('utf8', 'replace'))[:300])
+    for e, one, grp, srt2, srt3, grp2 in s2meta:
+        a = impl[one['id']]
+        if a['result'] != 'ok': continue
+        vals = [json.loads(r).get('v', '<nothing>') for r in rows(a['stdout'])]
+        for c, rel in ((srt2, 'a second --sort-by key'), (srt3, '--select behind a sorter')):
+            b = impl[c['id']]; checked += 1
+            got = [json.loads(r).get('v', '<nothing>') for r in rows(b['stdout'])] if b['result'] == 'ok' else None
+            if got != vals:        # the constant sort keys keep the arrival order
+                d = c['inputs'][0]['data']
+                violations.append({'property': 'C13', 'relation': 'with --split-by, the value of an expression that uses ^ is the same in %s' % rel, 'expression': e, 'args': lib.cfg_args(c['cfg']), 'stdin_hex': d.hex(),
+                                   'observed': json.dumps(got)[:300], 'expected': json.dumps(vals)[:300]})
+        g1, g2 = impl[grp['id']], impl[grp2['id']]; checked += 1
+        if (g1['result'], g1['stdout']) != (g2['result'], g2['stdout']):
+            d = grp2['inputs'][0]['data']
+            violations.append({'property': 'C13', 'relation': 'with --split-by, --group-by on an expression that uses ^ groups the same behind a sorter', 'expression': e, 'args': lib.cfg_args(grp2['cfg']), 'stdin_hex': d.hex(),
+                               'observed': g2['stdout'].decode('utf8', 'replace')[:300], 'expected': g1['stdout'].decode('utf8', 'replace')[:300]})
     for e, one, mac, mac2, ref2 in mmeta:
         for x, y in ((one, mac), (ref2, mac2)):
             a, b = impl[x['id']], impl[y['id']]; checked += 1
